@@ -43,6 +43,21 @@ C02Failed(e) ==
         \cup {c \in {"C02.root_hi"} : HasHiB(e) /\ ~BoundOK(Method(e), e.n, e.k, "hi", Hi(e), e.conf.kind, e.li)}
         \cup {c \in {"C02.around_estimate"} : e.conf.kind = "two" /\ ~(LeKN(Lo(e), e.n, e.k) /\ GeKN(Hi(e), e.n, e.k))})
 
+\* populations beyond 2^32: n = a 2^p, k = b 2^q with 10 <= k <= n - 10 (every method admits them)
+BigND(e) == Dy(BigOfInt(e.nbig.a), e.nbig.p)
+BigKD(e) == Dy(BigOfInt(e.kbig.a), e.kbig.p)
+BigFailed(e) ==
+    IF e.out.tag = "panic" THEN {"C02.no_panic"}
+    ELSE IF e.out.tag = "err" THEN {"C02.domain"}
+    ELSE {c \in {"C02.shape"} : ~ShapeOK(e.out.iv, e.conf.kind)}
+         \cup {c \in {"C02.in01"} : ~(IsFin(e.out.iv.lo) /\ IsFin(e.out.iv.hi) /\ DyLe(Lo(e), Hi(e)) /\ In01(Lo(e)) /\ In01(Hi(e)))}
+         \cup {c \in {"C02.root_lo"} : HasLoB(e) /\ ~BoundOKD(Method(e), BigND(e), BigKD(e), "lo", Lo(e), e.conf.kind, e.li)}
+         \cup {c \in {"C02.root_hi"} : HasHiB(e) /\ ~BoundOKD(Method(e), BigND(e), BigKD(e), "hi", Hi(e), e.conf.kind, e.li)}
+BigClauses(e) ==
+    {"C02.no_panic", "C02.population_beyond_32_bits"}
+    \cup (IF OkIv(e) THEN {"C02.shape", "C02.in01"} \cup (IF HasLoB(e) THEN {"C02.root_lo"} ELSE {}) \cup (IF HasHiB(e) THEN {"C02.root_hi"} ELSE {})
+          ELSE {})
+
 SameOut(o1, o2) ==
     /\ o1.tag = o2.tag
     /\ (o1.tag = "err" => o1.variant = o2.variant)
@@ -123,17 +138,20 @@ Next ==
          rows0 == IF e.first THEN EmptyRows
                   ELSE IF e.rowstart THEN [rows EXCEPT ![e.conf.kind] = <<>>] ELSE rows
          prev0 == IF e.rowstart THEN <<>> ELSE prev
-         f02   == C02Failed(e)
-                  \cup {c \in {"C02.front_end"} : ~IsRef(e) /\ ~RatioZero(e) /\ ref # <<>> /\ ~SameOut(e.out, ref)}
+         big   == e.op = "prop.big"
+         f02   == (IF big THEN (IF IsRef(e) THEN BigFailed(e) ELSE {}) ELSE C02Failed(e))
+                  \cup {c \in {"C02.front_end"} : ~IsRef(e) /\ (big \/ ~RatioZero(e)) /\ ref # <<>> /\ ~SameOut(e.out, ref)}
          \* the laws of C17 are established on the rows of ci_wilson / ci_z_normal; the other entry points
          \* (the alias `ci`, Stats::ci, ci_true, ...) inherit them by returning the same interval
-         f17   == IF ~IsRef(e) THEN {c \in {"C17.entry_points_agree"} : ~RatioZero(e) /\ ref # <<>> /\ ~SameOut(e.out, ref)}
+         f17   == IF ~IsRef(e) THEN {c \in {"C17.entry_points_agree"} : (big \/ ~RatioZero(e)) /\ ref # <<>> /\ ~SameOut(e.out, ref)}
+                  ELSE IF big THEN {}
                   ELSE IF e.grp = "row" THEN C17Row(e, rows0)
                   ELSE IF e.grp = "mult" THEN C17Mult(e, prev0)
                   ELSE IF e.grp = "levels" THEN C17Levels(e, prev0)
                   ELSE {}
          f     == f02 \cup f17
-         cs    == {"C02.domain", "C02.no_panic", "C02.domain." \o PropDomain(Method(e), e.n, e.k) \o "." \o Method(e)}
+         cs    == IF big THEN BigClauses(e) \cup (IF ~IsRef(e) THEN {"C02.front_end", "C17.entry_points_agree"} ELSE {}) ELSE
+                  {"C02.domain", "C02.no_panic", "C02.domain." \o PropDomain(Method(e), e.n, e.k) \o "." \o Method(e)}
                   \cup (IF OkIv(e) THEN {"C02.shape", "C02.in01", "C02.level_echo", "C02.method." \o Method(e),
                                           "C02.kind." \o e.conf.kind}
                                          \cup (IF HasLoB(e) THEN {"C02.root_lo"} ELSE {})
@@ -151,7 +169,7 @@ Next ==
         /\ nbad' = nbad + (IF f = {} THEN 0 ELSE 1)
         /\ cov' = Bump(cov, cs)
         /\ ref' = IF IsRef(e) THEN e.out ELSE ref
-        /\ rows' = IF IsRef(e) /\ OkIv(e) /\ e.grp = "row"
+        /\ rows' = IF ~big /\ IsRef(e) /\ OkIv(e) /\ e.grp = "row"
                    THEN [rows0 EXCEPT ![e.conf.kind] = (e.k :> <<Lo(e), Hi(e)>>) @@ rows0[e.conf.kind]]
                    ELSE rows0
         /\ prev' = IF IsRef(e) THEN (IF OkIv(e) THEN <<Lo(e), Hi(e)>> ELSE <<>>) ELSE prev0
